@@ -20,7 +20,7 @@ func init() {
 	Register(&Rule{
 		ID:    "R-SMALL",
 		Doc:   "single-site obligations: thrift Reset recomputes protocol flags like the constructor; the seen-bit of a decoded field is set on every path that consumes it; keyset lookups are confirmed by a length comparison; HTML key fragments are always computed; slice growth is geometric; every callback parameter of the skippers is used; trailing-data tests dominate success returns; varint overflow constants; sort-before-delta; number-kind precedence; identities of base64/time/endianness callees",
-		Props: []string{"C01", "C02", "C03", "C04", "C05", "C06", "C07", "C08", "C09", "C10", "C11", "C12", "C13", "C14", "C16", "C17", "C19"},
+		Props: []string{"C01", "C02", "C03", "C04", "C05", "C06", "C07", "C08", "C09", "C10", "C11", "C12", "C13", "C14", "C15", "C16", "C17", "C18", "C19"},
 		Min:   map[string]int{"C01": 5, "C02": 3, "C03": 1, "C04": 4, "C07": 3, "C08": 4, "C12": 2, "C13": 3, "C14": 3, "C16": 1, "C17": 1, "C19": 2},
 		Run:   runSmall,
 	})
@@ -102,6 +102,8 @@ func runSmall(c *core.Ctx) []core.Obligation {
 	smallWave20b(c, b)
 	smallWave21(c, b)
 	smallFieldIndexBounded(c, b)
+	smallRewriterTableBounded(c, b)
+	smallWave22(c, b)
 	smallStringOptionNull(c, b)
 	smallStringOptionMarshaler(c, b)
 	return b.out
@@ -1211,7 +1213,7 @@ func smallNumberExactLiteral(c *core.Ctx, b *ob) {
 // stores to constant indexes; the shape of every store is checked against that table. A byte that
 // loses its continuation bit ends the varint early for the values whose next payload bit is 0.
 func smallVarintBytes(c *core.Ctx, b *ob) {
-	props := []string{"C03", "C12", "C16"}
+	props := []string{"C03", "C12", "C16", "C19"}
 	key := "varint-encoder:byte-table"
 	fn := c.Lookup("proto.encodeVarint")
 	if fn == nil {
@@ -5793,4 +5795,253 @@ func smallFieldIndexBounded(c *core.Ctx, b *ob) {
 func isIntegerType(t types.Type) bool {
 	bt, ok := t.Underlying().(*types.Basic)
 	return ok && bt.Info()&types.IsInteger != 0
+}
+
+// S98 — a MessageRewriter is a slice indexed by field number: a template that mentions a field
+// numbered near 2^29-1 makes parseRewriteTemplateStruct allocate one slot per number below it,
+// and every Rewrite walks a bitmap of that length — "every field number the wire format allows"
+// is supported in principle only. The exported type fixes the representation, so this is reported
+// as a finding rather than repaired.
+func smallRewriterTableBounded(c *core.Ctx, b *ob) {
+	props := []string{"C19"}
+	key := "rewrite:table-sized-by-field-number"
+	fn := c.Lookup("proto.parseRewriteTemplateStruct")
+	if fn == nil {
+		b.addP(props, core.Undecided, key, "-", "proto.parseRewriteTemplateStruct not found")
+		return
+	}
+	bad := ""
+	for _, blk := range fn.Blocks {
+		for _, in := range blk.Instrs {
+			ms, ok := in.(*ssa.MakeSlice)
+			if !ok || !strings.HasSuffix(ms.Type().String(), "proto.MessageRewriter") {
+				continue
+			}
+			byNumber := dependsOn(ms.Len, func(x ssa.Value) bool {
+				switch y := x.(type) {
+				case *ssa.Field:
+					st, _ := y.X.Type().Underlying().(*types.Struct)
+					return st != nil && st.Field(y.Field).Name() == "Number"
+				case *ssa.UnOp:
+					id, ok := fieldOfLoad(y)
+					return ok && strings.HasSuffix(id, ".Number")
+				}
+				return false
+			})
+			capped := false
+			for _, e := range dominatingEdges(blk) {
+				if bo, ok := e.ifi.Cond.(*ssa.BinOp); ok {
+					if k, isK := constInt(bo.Y); isK && k > 0 && (bo.Op == token.LSS || bo.Op == token.LEQ || bo.Op == token.GTR || bo.Op == token.GEQ) {
+						capped = true
+					}
+				}
+			}
+			if byNumber && !capped {
+				bad = c.InstrPos(ms)
+			}
+		}
+	}
+	if bad != "" {
+		b.addP(props, core.Violation, key, bad, "parseRewriteTemplateStruct allocates a MessageRewriter with one slot per field number up to the largest one the template mentions: a template for a field numbered 536870911 allocates 8 GiB, and every Rewrite allocates and walks a bitmap of that length")
+	} else {
+		b.addP(props, core.Discharged, key, c.FuncPos(fn), "the rewriter table is not sized by an uncapped field number")
+	}
+}
+
+// smallWave22 groups single-site clauses added after the twenty-second round of seeded changes.
+func smallWave22(c *core.Ctx, b *ob) {
+	// S99 — iso8601.Parse extracts each digit of the fixed layout with a 4-bit mask (the bytes
+	// were checked to be digits, '0' was subtracted): a narrower mask maps several digits to the
+	// same value before validate() sees the field (month 21 becomes 01).
+	{
+		props := []string{"C18"}
+		key := "iso-parse:digit-masks"
+		fn := c.Lookup("iso8601.Parse")
+		if fn == nil {
+			b.addP(props, core.Undecided, key, "-", "iso8601.Parse not found")
+		} else {
+			n, bad := 0, ""
+			for _, blk := range fn.Blocks {
+				for _, in := range blk.Instrs {
+					bo, ok := in.(*ssa.BinOp)
+					if !ok || bo.Op != token.AND {
+						continue
+					}
+					k, isK := constUint(bo.Y)
+					if !isK || k >= 0x100 || bo.X.Type().String() != "uint64" {
+						continue
+					}
+					n++
+					if k != 0xF {
+						bad = fmt.Sprintf("%s (mask %#x)", c.InstrPos(bo), k)
+					}
+				}
+			}
+			switch {
+			case n < 8:
+				b.addP(props, core.Undecided, key, c.FuncPos(fn), fmt.Sprintf("only %d digit extractions found in iso8601.Parse", n))
+			case bad != "":
+				b.addP(props, core.Violation, key, bad, "iso8601.Parse extracts a digit of the fixed layout with a mask other than 0xF: digits that differ in the dropped bits are read as the same value before the range of the field is validated — 2021-21-15T12:34:56Z is accepted as January where time.Parse reports month out of range")
+			default:
+				b.addP(props, core.Discharged, key, c.FuncPos(fn), fmt.Sprintf("%d digit extractions, each with the mask 0xF", n))
+			}
+		}
+	}
+	// S100 — MultiRewriter owns its list: callers (parseRewriteTemplateStruct) reuse the slice they
+	// pass for the next field.
+	{
+		props := []string{"C19"}
+		key := "multi-rewriter:copies-its-arguments"
+		fn := c.Lookup("proto.MultiRewriter")
+		if fn == nil {
+			b.addP(props, core.Undecided, key, "-", "proto.MultiRewriter not found")
+		} else {
+			n, bad := 0, ""
+			for _, blk := range fn.Blocks {
+				for _, in := range blk.Instrs {
+					st, ok := in.(*ssa.Store)
+					if !ok {
+						continue
+					}
+					fa, ok := st.Addr.(*ssa.FieldAddr)
+					if !ok || !strings.HasSuffix(fieldAddrID(fa), "multiRewriter.rewriters") {
+						continue
+					}
+					n++
+					for _, o := range origins(st.Val) {
+						if _, isMake := o.(*ssa.MakeSlice); !isMake {
+							bad = c.InstrPos(st)
+						}
+					}
+				}
+			}
+			switch {
+			case n == 0:
+				b.addP(props, core.Undecided, key, c.FuncPos(fn), "MultiRewriter builds no multiRewriter")
+			case bad != "":
+				b.addP(props, core.Violation, key, bad, "MultiRewriter keeps the slice it was called with instead of a copy: parseRewriteTemplateStruct reuses that slice for the next template member, which overwrites the first rewriter of a repeated field templated with exactly 2, 4, 8 … elements — the element is lost and another field is emitted twice")
+			default:
+				b.addP(props, core.Discharged, key, c.FuncPos(fn), "the list is copied into a slice of its own")
+			}
+		}
+	}
+	// S102 — once Err is set a Tokenizer stays failed until Reset: Next begins by testing it.
+	{
+		props := []string{"C17"}
+		key := "tokenizer:error-is-sticky"
+		fn := c.Lookup("json.(*Tokenizer).Next")
+		if fn == nil {
+			b.addP(props, core.Undecided, key, "-", "json.(*Tokenizer).Next not found")
+		} else {
+			ok := false
+			if ifi, isIf := fn.Blocks[0].Instrs[len(fn.Blocks[0].Instrs)-1].(*ssa.If); isIf {
+				if bo, isB := ifi.Cond.(*ssa.BinOp); isB && isNilConst(bo.Y) {
+					if id, isF := fieldOfLoad(bo.X); isF && id == "json.Tokenizer.Err" {
+						ok = true
+					}
+				}
+			}
+			if ok {
+				b.addP(props, core.Discharged, key, c.FuncPos(fn), "Next tests Err before anything else")
+			} else {
+				b.addP(props, core.Violation, key, c.FuncPos(fn), "Tokenizer.Next does not begin with a test of Err: after an error the next call resumes behind the offending byte, returns true and clears Err (\"@1\": false with Err set, then true with the token 1) — the error is no longer sticky until Reset")
+			}
+		}
+	}
+	// S103 — json.Append encodes with the flags it was given on every path: a detour through
+	// another entry point (a pooled buffer filled by Append or Marshal) with constant flags ignores
+	// the caller's.
+	{
+		props := []string{"C15", "C14"}
+		key := "append:flags-honoured-on-every-path"
+		fn := c.Lookup("json.Append")
+		if fn == nil || len(fn.Params) < 3 {
+			b.addP(props, core.Undecided, key, "-", "json.Append not found")
+		} else {
+			fp := fn.Params[2]
+			n, bad := 0, ""
+			isFlags := func(v ssa.Value) bool { return strings.HasSuffix(v.Type().String(), "json.AppendFlags") }
+			check := func(v ssa.Value, pos string) {
+				n++
+				for _, o := range origins(v) {
+					if o != ssa.Value(fp) {
+						bad = pos
+					}
+				}
+			}
+			for _, blk := range fn.Blocks {
+				for _, in := range blk.Instrs {
+					switch x := in.(type) {
+					case *ssa.Store:
+						if isFlags(x.Val) {
+							check(x.Val, c.InstrPos(x))
+						}
+					case ssa.CallInstruction:
+						for _, a := range x.Common().Args {
+							if isFlags(a) {
+								check(a, c.InstrPos(x))
+							}
+						}
+						if f := staticCallee(x.Common()); f != nil && f.Name() == "Marshal" && f.Pkg == fn.Pkg {
+							n++
+							bad = c.InstrPos(x)
+						}
+					}
+				}
+			}
+			switch {
+			case n == 0:
+				b.addP(props, core.Undecided, key, c.FuncPos(fn), "json.Append does not use its flags")
+			case bad != "":
+				b.addP(props, core.Violation, key, bad, "json.Append encodes with flags other than the ones it was called with on some path (a full destination served from a pooled buffer filled with EscapeHTML|SortMapKeys): the appended text differs from Append(nil, v, flags) exactly when the destination has no spare capacity")
+			default:
+				b.addP(props, core.Discharged, key, c.FuncPos(fn), fmt.Sprintf("%d use(s) of flags in json.Append, all the parameter", n))
+			}
+		}
+	}
+	// S101 — cachedCodecOf answers a miss with the codec of the type it was asked for: the type
+	// variable is re-pointed to the element type while both codecs are built, and a result looked
+	// up under the re-pointed variable is the codec of T for a *T (without wantzero: the first call
+	// for a type sizes and writes differently from every later one).
+	{
+		props := []string{"C16", "C03"}
+		key := "codec-cache:miss-returns-the-requested-codec"
+		fn := c.Lookup("proto.cachedCodecOf")
+		if fn == nil {
+			b.addP(props, core.Undecided, key, "-", "proto.cachedCodecOf not found")
+		} else {
+			n, bad := 0, ""
+			for _, r := range returnsOf(fn) {
+				if len(r.Results) != 1 {
+					continue
+				}
+				n++
+				for _, o := range origins(r.Results[0]) {
+					lk, ok := o.(*ssa.Lookup)
+					if !ok {
+						if ex, isEx := o.(*ssa.Extract); isEx {
+							lk, ok = ex.Tuple.(*ssa.Lookup)
+						}
+					}
+					if !ok {
+						continue
+					}
+					if dependsOn(lk.Index, func(x ssa.Value) bool {
+						call, ok := x.(*ssa.Call)
+						return ok && call.Common().IsInvoke() && call.Common().Method.Name() == "Elem"
+					}) {
+						bad = c.InstrPos(r)
+					}
+				}
+			}
+			switch {
+			case n == 0:
+				b.addP(props, core.Undecided, key, c.FuncPos(fn), "cachedCodecOf has no return")
+			case bad != "":
+				b.addP(props, core.Violation, key, bad, "cachedCodecOf returns a codec looked up under a key derived from t.Elem(): on a cache miss for *T the caller gets the codec of T, later calls (cache hits) the codec of *T, which adds wantzero — the first Size or MarshalTo of a process for that type disagrees with every later one (Size first: MarshalTo into Size bytes reports a short buffer)")
+			default:
+				b.addP(props, core.Discharged, key, c.FuncPos(fn), "no result is looked up under the element type")
+			}
+		}
+	}
 }
